@@ -1,4 +1,5 @@
 import TF.Proofs.Sponge
+import TF.Proofs.GenBridgeSponge
 /-!
 # C15 — sponge discipline: injective padding, domain separation, exact sampling
 
@@ -148,5 +149,97 @@ theorem sample_scalars_spec {perm : List Nat → List Nat} (hp : Pres perm) {st 
 example : sampleScalars id [1, 2, 3, 4, 5, 6, 7, 8, 9, 10, 0, 0, 0, 0, 0, 0] 4
     = some ([(1, 2, 3), (4, 5, 6), (7, 8, 9), (10, 1, 2)], [1, 2, 3, 4, 5, 6, 7, 8, 9, 10, 0, 0, 0, 0, 0, 0]) := by
   decide
+
+/-! ## Regenerated-from-source bridge (tools/rs2lean_bt4.py, `TF/Gen/SpongeLoops.lean`)
+
+The sponge functions are regenerated from the text of `tip5.rs` / `sponge.rs` on every run.  The regenerated code works on
+raw Montgomery words and calls the regenerated `Loops.tip5_permutation`; the hand model works on canonical values over
+an abstract permutation.  `enc = map bfe_new` encodes values as words and the model is instantiated with
+`permV vs = map bfe_value (Loops.tip5_permutation (enc vs))` — the regenerated permutation read on values.  Each theorem
+holds for every canonical input (all values `< P`); proofs in `TF/Proofs/GenBridgeSponge.lean`. -/
+section GenBridge
+open TF.GenBridge.Sponge
+open TF.Gen.Loops (tip5_init tip5_absorb tip5_squeeze tip5_pad_and_absorb_all tip5_hash_varlen tip5_hash_pair
+  tip5_sample_indices tip5_sample_indices_ok tip5_hash_varlen_ok tip5_hash_pair_ok)
+
+/-- `permV` keeps the state width, so every theorem above applies to it -/
+theorem gen_permV_pres : Pres permV := permV_pres
+
+/-- regenerated `Sponge::init` (for Tip5) = the hand model's initial state -/
+theorem gen_init_eq_model : tip5_init = some (enc initState) := gen_init_eq.1
+
+/-- regenerated `absorb` (`iter_mut().zip_eq(..).for_each(..)`, `permutation`) = hand model, every canonical state/block -/
+theorem gen_absorb_eq_model {st block : List Nat} (hl : st.length = 16) (hc : ∀ x ∈ st, x < P) (hbl : block.length = 10)
+    (hbc : ∀ x ∈ block, x < P) :
+    tip5_absorb (enc st) (enc block) = enc (absorb permV st block) := (gen_absorb_eq hl hc hbl hbc).1
+
+/-- regenerated `squeeze` = hand model -/
+theorem gen_squeeze_eq_model {st : List Nat} (hl : st.length = 16) (hc : ∀ x ∈ st, x < P) :
+    tip5_squeeze (enc st) = (enc (squeeze permV st).1, enc (squeeze permV st).2) := (gen_squeeze_eq hl hc).1
+example : (tip5_squeeze (enc (List.replicate 16 7))).1 = enc (List.replicate 10 7) := by decide +kernel
+
+/-- regenerated `Sponge::pad_and_absorb_all` (the trait's default method: `next_multiple_of`, `once`/`repeat`/`chain`/
+    `take`, itertools `chunks`, `try_into().unwrap()`, `absorb`) = hand model, every canonical input that fits in memory -/
+theorem gen_pad_and_absorb_all_eq_model {st input : List Nat} (hl : st.length = 16) (hc : ∀ x ∈ st, x < P)
+    (hi : ∀ x ∈ input, x < P) (hlen : input.length + 10 < 2 ^ 64) :
+    some (tip5_pad_and_absorb_all (enc st) (enc input)) = (padAndAbsorbAll (absorb permV) st input).map enc :=
+  (gen_pad_and_absorb_all_eq hl hc hi hlen).1
+
+/-- regenerated `hash_varlen` = hand model -/
+theorem gen_hash_varlen_eq_model {input : List Nat} (hi : ∀ x ∈ input, x < P) (hlen : input.length + 10 < 2 ^ 64) :
+    tip5_hash_varlen (enc input) = (hashVarlen permV input).map enc := gen_hash_varlen_eq hi hlen
+example : (tip5_hash_varlen (enc [3, 4, 5, 6, 7, 8, 9, 10, 11, 12])).isSome = true ∧
+    tip5_hash_varlen_ok (enc [3, 4, 5, 6, 7, 8, 9, 10, 11, 12]) = true ∧
+    tip5_hash_varlen (enc [3, 4]) ≠ tip5_hash_varlen (enc [3, 4, 0]) := by decide +kernel
+
+/-- regenerated `hash_pair` (`Digest::values` / `Digest::new` as identities on 5-element arrays) = hand model -/
+theorem gen_hash_pair_eq_model {l r : List Nat} (hl : l.length = 5) (hr : r.length = 5) (hlc : ∀ x ∈ l, x < P)
+    (hrc : ∀ x ∈ r, x < P) :
+    tip5_hash_pair (enc l) (enc r) = some (enc (hashPair permV l r)) := gen_hash_pair_eq hl hr hlc hrc
+example : (tip5_hash_pair (enc [1, 2, 3, 4, 5]) (enc [6, 7, 8, 9, 10])).isSome = true ∧
+    tip5_hash_pair_ok (enc [1, 2, 3, 4, 5]) (enc [6, 7, 8, 9, 10]) = true ∧
+    tip5_hash_pair_ok (enc [1, 2, 3, 4]) (enc [6, 7, 8, 9, 10]) = false := by decide +kernel
+
+/-- regenerated `sample_indices` (the rejection loop: refill by `squeeze().into_iter().rev().collect_vec()`, `pop()`,
+    comparison with `BFieldElement::new(MAX)`, `value() as u32 % upper_bound`) = hand model **including `none`**: the
+    regenerated loop with `fuel + 1` evaluations of its head is the model's loop with `fuel` iterations; with no fuel it
+    does not return -/
+theorem gen_sample_indices_eq_model {st : List Nat} (hl : st.length = 16) (hc : ∀ x ∈ st, x < P) (fuel bound num : Nat) :
+    tip5_sample_indices (fuel + 1) (enc st) bound num
+      = (sampleIndices permV fuel st bound num).map (fun r => (r.1, enc r.2)) ∧
+    tip5_sample_indices 0 (enc st) bound num = none := gen_sample_indices_eq hl hc fuel bound num
+/-- non-vacuity on the rejection path (probability 2^-64 per element under random states): lanes 0 and 2 hold `p - 1` and
+    are skipped, the call needs four iterations (five evaluations of the loop head) and runs out of fuel with fewer -/
+example : let st := [P - 1, 5, P - 1, 4294967296 + 7, 0, 0, 0, 0, 0, 0, 1, 1, 1, 1, 1, 1]
+    (tip5_sample_indices 5 (enc st) 4 2).map Prod.fst = some [1, 3] ∧
+    tip5_sample_indices 4 (enc st) 4 2 = none ∧
+    tip5_sample_indices_ok 5 (enc st) 4 2 = true := by decide +kernel
+
+/-- **transfer**: the C15 statements for the code as it is in the source now (on every canonical state / input):
+    `sample_indices` inspects the first `fuel` elements of the stream squeezed with the regenerated permutation, returns
+    iff these contain `num` usable elements and then returns the indices of the shortest such prefix and leaves the state
+    after `⌈u/10⌉` squeezes (`sample_indices_spec`); `hash_varlen` absorbs exactly the padded input into the zero state
+    and outputs the first five elements of one squeeze (`hash_varlen_spec`, `pad_spec`); different inputs are absorbed as
+    different block sequences (`pad_injective`) -/
+theorem gen_sponge_transfer {st : List Nat} (hl : st.length = 16) (hc : ∀ x ∈ st, x < P) :
+    (∀ bound num fuel K : Nat, fuel ≤ RATE * K →
+      tip5_sample_indices (fuel + 1) (enc st) bound num =
+        (usedCount ((stream permV K st).take fuel) num).map fun u =>
+          (sel bound ((stream permV K st).take u), enc (stateAfter permV ((u + 9) / 10) st))) ∧
+    (∀ input : List Nat, (∀ x ∈ input, x < P) → input.length + 10 < 2 ^ 64 →
+      tip5_hash_varlen (enc input) =
+        some (enc ((((padBlocks input).foldl (absorb permV) (List.replicate STATE_SIZE 0)).take RATE).take DIGEST_LEN)) ∧
+      tip5_pad_and_absorb_all (enc st) (enc input) = enc ((padBlocks input).foldl (absorb permV) st)) := by
+  refine ⟨fun bound num fuel K hf => ?_, fun input hi hlen => ⟨?_, ?_⟩⟩
+  · rw [(gen_sample_indices_eq_model hl hc fuel bound num).1,
+      sample_indices_spec gen_permV_pres (by rw [hl]; rfl) bound num fuel K hf, Option.map_map]
+    rfl
+  · rw [gen_hash_varlen_eq_model hi hlen, (hash_varlen_spec permV input).1, Option.map_some]
+  · have h := gen_pad_and_absorb_all_eq_model hl hc hi hlen
+    rw [(pad_spec (absorb permV) st input).2.2.2.2.2, Option.map_some] at h
+    exact Option.some.inj h
+example : (∀ x ∈ List.replicate 16 (P - 1), x < P) := by decide
+
+end GenBridge
 
 end TF.C15
